@@ -1025,7 +1025,11 @@ pub fn c11(ctx: &mut Ctx) -> R {
     }
     let body = gen_req_body(ctx, &cfg, true);
     // ---- peer behaviour
-    let script = ctx.draw(4); // 0,1 = 100 then final; 2 = refuse; 3 = silent
+    // 0,1 = 100 then final after the body; 2 = refuse; 3 = silent; 4 = 100 and the final response
+    // back to back right after the head (a server that does not wait for the body)
+    let script = ctx.draw(5);
+    let eager = script == 4;
+    let script = if eager { 0 } else { script };
     let final_plan = loop {
         let status = match ctx.draw(4) {
             0 => 200,
@@ -1077,7 +1081,11 @@ pub fn c11(ctx: &mut Ctx) -> R {
         0 | 1 => {
             msgs.push(ServerMsg { bytes: c100.clone(), trigger: Trigger::AfterRequestHead, think_ns: think1, cuts: cuts.clone() });
             let c = if prot.is_some() { one_seg(&final_bytes) } else { gen_arrival(ctx, final_bytes.len(), &[final_plan.head_bytes.len()], 40).0 };
-            msgs.push(ServerMsg { bytes: std::mem::take(&mut final_bytes), trigger: Trigger::AfterRequest, think_ns: think2, cuts: c });
+            let trig = if eager { Trigger::AfterRequestHead } else { Trigger::AfterRequest };
+            if eager {
+                ctx.count("f:peer_final_right_behind_100");
+            }
+            msgs.push(ServerMsg { bytes: std::mem::take(&mut final_bytes), trigger: trig, think_ns: if eager { 0 } else { think2 }, cuts: c });
         }
         2 => {
             // the head is cut structurally, the body follows in one more segment
